@@ -436,7 +436,7 @@ package txmgr
 // ---------------------------------------------------------------------------------------------
 // L4 (C01) / V1-V2 (C17): classification of a coin at query time.
 //@ func (*UtxoStore).ScriptAddressBalance
-//@   props WIP
+//@   props C01 C17 C19
 //@   requires s != nil && s.bucketMeta != nil && s.ksmgr != nil && tx != nil && txpool != nil
 //@   requires ghostOf[*keystore.AddrManager]("curKS", s.ksmgr) != nil
 //@   modifies gmap("iterkey")
